@@ -77,6 +77,23 @@ func resultType(c *ssa.CallCommon) types.Type {
 func (fc *FnCtx) doCall(fr *Frame, st *State, instr ssa.Instruction, c *ssa.CallCommon, fnVal Val, args []Val) Val {
 	prePC := st.pc
 	res := fc.doCallInner(fr, st, instr, c, fnVal, args)
+	if fr.top && fr.spec != nil && len(fr.spec.Relies) > 0 && !c.IsInvoke() {
+		if cv, ok := fnVal.(*ClosureVal); ok && cv.Fn != nil {
+			name := cv.Fn.Name()
+			if i := strings.Index(name, "["); i >= 0 {
+				name = name[:i]
+			}
+			for _, r := range fr.spec.Relies {
+				if r.Callee != name {
+					continue
+				}
+				env := fc.topEnv(fr, fr.spec)
+				t := fc.evalClauseEnv(st, fc.entry, r.Clause, env)
+				fc.assume(st, t)
+				fc.assumptions["RELY after "+name+" (interference of other goroutines restores the shared invariant): "+r.Clause.Src] = true
+			}
+		}
+	}
 	if c.IsInvoke() || len(fr.ghostRes) == 0 {
 		return res
 	}
